@@ -18,7 +18,7 @@ RULE = ('cases = generated write-heavy programs for 2-3 connections over shared 
         'counters equal the sum of successful increments, plus the snapshot oracles of C02); distinct by program hash')
 ASSUMPTIONS = c02_snapshot.ASSUMPTIONS
 BUDGET = {'quick': {'examples': 8000, 'workers': 8},
-          'thorough': {'examples': 30000, 'workers': 16}}
+          'thorough': {'examples': 60000, 'workers': 16}}
 
 
 def strategy(tier):
